@@ -102,6 +102,19 @@ impl FactoryWorld {
             v.push(AssetInfo::Token { contract_addr: self.w.factory.to_string() });   // a contract that is not a cw20
             v.push(AssetInfo::Token { contract_addr: "contract777".to_string() });    // does not exist
             v.push(AssetInfo::NativeToken { denom: "nosuchdenom".to_string() });
+            // unregistered denoms that merely LOOK like a registered one (bank denoms are case sensitive
+            // and may carry any suffix): a different spelling is a different, unregistered denom
+            if let Some(d) = self.model.denoms.keys().next().cloned() {
+                let mut cap = d.clone();
+                if let Some(c) = cap.get_mut(0..1) {
+                    c.make_ascii_uppercase();
+                }
+                for look in [d.to_uppercase(), cap, format!("{}x", d), format!("{}/1", d)] {
+                    if !self.model.denoms.contains_key(&look) && !self.w.natives.contains(&look) {
+                        v.push(AssetInfo::NativeToken { denom: look });
+                    }
+                }
+            }
         }
         v
     }
